@@ -39,13 +39,22 @@ def real_parse(fmt, text):
     return {"header": list(asm.header), "scaffolds": dump_scaffolds(asm.scaffolds)}
 
 
+class WriterChangedAssembly(Exception):
+    pass
+
+
 def real_format(fmt, plain):
     from tola.assembly.assembly import Assembly
     from tola.assembly.format import format_agp, format_tpf
-
     a = Assembly("a", header=list(plain["header"]), scaffolds=build_scaffolds(plain["scaffolds"]))
+    before = (list(a.header), dump_scaffolds(a.scaffolds))
     out = io.StringIO()
     (format_agp if fmt == "agp" else format_tpf)(a, out)
+    # a writer only reads: the assembly it was given is afterwards what it was before (it may be written again,
+    # in the other format)
+    after = (list(a.header), dump_scaffolds(a.scaffolds))
+    if after != before:
+        raise WriterChangedAssembly(f"format_{fmt} changed the assembly it was given: {after[1][:2]} was {before[1][:2]}")
     return out.getvalue()
 
 
@@ -84,6 +93,10 @@ def field_sig(a, b):
     return ["", "name", "start", "end", "strand", "tags"][next(i for i in range(1, 6) if ra[i] != rb[i])]
 
 
+def i_starts_with_gap(plain):
+    return any(rows and rows[0][0] == "G" for _, rows in plain["scaffolds"])
+
+
 def check_assembly(ctx, plain, tpf_ok):
     ctx.case()
     case = {"kind": "asm", "asm": plain, "tpf_ok": tpf_ok}
@@ -118,6 +131,23 @@ def check_assembly(ctx, plain, tpf_ok):
             ctx.violation(f"{fmt}-row-count-differs-from-line-count", f"{nlines} lines", case)
             return
         ctx.count(f"roundtrip-ok:{fmt}")
+    if not tpf_ok and i_starts_with_gap(plain):
+        # one assembly object written twice, first as TPF (which cannot carry its leading gap - whatever that
+        # writer does about it), then as AGP: the AGP is still the AGP of the assembly
+        from tola.assembly.assembly import Assembly
+        from tola.assembly.format import format_agp, format_tpf
+
+        a = Assembly("a", header=list(plain["header"]), scaffolds=build_scaffolds(plain["scaffolds"]))
+        try:
+            format_tpf(a, io.StringIO())
+        except Exception:  # noqa: BLE001 - refusing is the writer's right
+            ctx.count("note:tpf-writer-refused-leading-gap")
+        out = io.StringIO()
+        format_agp(a, out)
+        ctx.count("same-object-written-as-tpf-then-agp")
+        if out.getvalue() != agp_ref.format(plain):
+            ctx.violation("agp-of-an-object-differs-after-it-was-written-as-tpf", f"got:\n{out.getvalue()[:400]}\nwant:\n{agp_ref.format(plain)[:400]}", case)
+            return
     if tpf_ok:
         # (iv) AGP -> TPF -> AGP drops only tags
         a1 = real_parse("agp", real_format("agp", plain))
@@ -204,9 +234,18 @@ def check_cli(ctx, plain, rng, scratch):
         r = cli_runs.run_asm_format([d / "x.agp", "-i", "TPF", "-f", "AGP"])
         want = agp_ref.format(strip_tags(plain))
     elif mode == "crlf":
-        (d / "c.agp").write_bytes(agp.replace("\n", "\r\n").encode())
-        r = cli_runs.run_asm_format([d / "c.agp", "-f", "AGP"])
-        want = agp
+        # (read back from an output file, as bytes: the test runner's captured stdout normalises line ends)
+        if rng.random() < 0.5 or not tpf.strip():
+            (d / "c.agp").write_bytes(agp.replace("\n", "\r\n").encode())
+            r = cli_runs.run_asm_format([d / "c.agp", "-f", "AGP", "-o", d / "crlf.out"])
+            want = agp
+        else:
+            (d / "c.tpf").write_bytes(tpf.replace("\n", "\r\n").encode())
+            r = cli_runs.run_asm_format([d / "c.tpf", "-f", "TPF", "-o", d / "crlf.out"])
+            want = tpf
+        outfile = d / "crlf.out"
+        if plain["header"]:
+            ctx.count("cli:crlf-input-with-header-lines")
     elif mode == "out-override":
         # an explicit -f wins over what the name of the output file suggests
         (d / "a.agp").write_text(agp)
@@ -250,8 +289,8 @@ def check_cli(ctx, plain, rng, scratch):
     if r["exit_code"] != 0:
         ctx.violation(f"asm-format-failed:{mode}", f"exit {r['exit_code']} {r['exception']!r} {r['stderr'][-300:]}", case)
         return
-    if mode in ("out-override", "upper-ext", "multi-outfile"):
-        got = outfile.read_text() if outfile.exists() else "<no output file>"
+    if mode in ("out-override", "upper-ext", "multi-outfile", "crlf"):
+        got = outfile.read_bytes().decode() if outfile.exists() else "<no output file>"
         outfile.unlink(missing_ok=True)
     else:
         got = (d / "o.tpf").read_text() if mode == "outfile" else r["stdout"]
@@ -306,6 +345,8 @@ def gates(c, tier):
         "cli:multi-same-stem": 20,
         "cli:with-qc-overlaps": 50,
         "cli:no-final-newline": 20,
+        "cli:crlf-input-with-header-lines": 10,
+        "same-object-written-as-tpf-then-agp": 300,
         "corruption:no-final-newline:ref-valid:parsed": 300,
     }
     out = [f"{k}>={v} (got {c.get(k, 0)})" for k, v in need.items() if c.get(k, 0) < v]
